@@ -247,7 +247,7 @@ Lemma dset_keys_NoDup : forall A k (v : A) l,
   NoDup (map fst l) -> NoDup (map fst (dset k v l)).
 Proof.
   intros A k v l. induction l as [|[k0 w] t IH]; simpl; intros H.
-  - constructor; auto. constructor.
+  - constructor; [intros []|constructor].
   - inversion H as [|? ? Hn Ht]; subst. destruct (Nat.eqb k k0) eqn:E; simpl.
     + apply Nat.eqb_eq in E. subst. constructor; auto.
     + constructor; auto. intros Hin. destruct (dset_keys_in _ _ _ _ _ Hin) as [E'|E']; auto.
